@@ -15,6 +15,7 @@ META = {
     'technique': 'static analysis: canonical linear normal forms (min/max) of program expressions compared with '
                  'the formula in the property statement; branch-fact extraction from the stack machines',
 }
+META['text'] += " The stack-machine arithmetic applies while a loop is in the recognised dispatch form; the interpreted layout model (L.m: every flat group's whole line within page and ribbon) decides independently of the form."
 
 
 def run(repo, rep):
